@@ -47,7 +47,7 @@ def main():
         ],
         "checks": checks,
         "not_applicable": na,
-        "notes": "All checks: ./check <id> --tier quick|thorough rebuilds the harness against /repo's working tree (path dependencies). Exit 0 held / 1 VIOLATION / 2 machinery failure. Known findings: /verif/known_findings.txt.",
+        "notes": "All checks: ./check <id> --tier quick|thorough rebuilds the harness against /repo's working tree (path dependencies). Exit 0 held / 1 VIOLATION / 2 machinery failure. Known findings: /verif/known_findings.txt. Measured on 16 cores: every quick tier takes under 40 s (C03, C04, C06 about 30 s, the others under 15 s); thorough tiers take minutes - the longest are C06 (about 40 min on an idle machine; 69 min measured with other jobs running), C07 and C02 (20-30 min), C19, C14, C01, C03, C04, C17 (8-14 min).",
     }
     json.dump(m, open("/verif/MANIFEST.json", "w"), indent=1)
     print("MANIFEST.json written:", len(checks), "checks,", len(na), "not_applicable")
